@@ -27,8 +27,22 @@ LEVEL_TEXT = ("Proved for all sizes/inputs of the model: C04_ctrl_state (X conju
               "MCX = C^k(U); C04_abc_model: the same for the executable model's matrices), C04_multitarget, C04_ldmcsu_circuit (the "
               "model's linear_depth_mcv gate list denotes C^k((A'XAX)^2) for every k>=2, pattern and wire layout).  Part B "
               "(Ldmcu, Qdmcu, Mcg, MCU): C04_pairs, C04_ladder_diag_partial, C04_ladder_weights, C04_ladder_run_partial, C04_qdmcu(_step), C04_mcg_dispatch, C04_mcu_base, "
-              "C04_mcu_error_partial (see props/c04_u2.py).  Circuit-level statements take 'the dirty-ancilla V-chain denotes the ideal MCX' "
-              "as an explicit hypothesis (discharged by C05_vchain).  Tie: flattened gate skeletons (wires, patterns, branch, "
+              "C04_mcu_error_partial (see props/c04_u2.py).  Unconditional (C05 composed in, V-chains and the .inverse() V-chain "
+              "expanded to the primitive gates the tie compares): C04_vchain_inverse (the expanded McxVchainDirty and its qiskit "
+              "inverse both denote the ideal MCX on every duplicate-free wire list), C04_ldmcsu_full (the expanded linear_depth_mcv "
+              "list denotes C^k((A'XAX)^2) for every k>=2, layout, pattern, state; no MCX hypothesis), C04_ldmcsu_full_defined "
+              "(the expansion exists for every pattern of length <= k), C04_ldmcsu_spec (real instance, amplitudes in C: the whole "
+              "expanded Ldmcsu definition denotes 'U on the target iff the controls read the pattern' for every SU(2) U with real "
+              "secondary diagonal (plain branch) or real main diagonal (H sandwich), and for one control; the eigenbasis path for "
+              "general SU(2) stays tied/tested only), C04_multitarget_full / _full_defined / _spec (the expanded MultiTargetMCSU2 "
+              "definition, multi-target V-chains and the inverse chain written out, applies unitaries[j] to target j iff the "
+              "controls read the pattern, for every k>=2, pattern, state, and every list of SU(2) matrices with a real secondary "
+              "or real main diagonal; H pairs pushed onto their targets), C04_ldmcsp_spec (the expanded LdMcSpecialUnitary definition, "
+              "LinearMcx(k-1) and its inverse written out, is C^k(RZ RY RZ) for 1<=k<=6 given the _params_zyz specification of the "
+              "angle triples; unconditional on the MCX), C04_ldmcsp_partial (same for every k; for k>=7 the bracket property of the "
+              "LinearMcx(action_only=True) pair, whose borrowed controls are left dirty and cleaned by the inverse copy, remains a "
+              "named hypothesis LmBracket), C04_ldmcsp_full_defined.  The older circuit-level statements (C04_ldmcsu_circuit, C04_abc, "
+              "C04_multitarget) take 'the dirty-ancilla MCX denotes the ideal MCX' as an explicit hypothesis.  Tie: flattened gate skeletons (wires, patterns, branch, "
               "op_a / s_op / ABC matrices to 1e-9) of the real definitions vs the model for k<=7 (9 thorough), all patterns "
               "k<=5.  Oracle: Operator(definition) vs reference controlled-U, k<=8 (10 thorough).")
 LEVEL_NOTE = ("Trusted: Lean kernel (axioms propext, Classical.choice, Quot.sound); hand model = code beyond the explored sizes; "
@@ -40,6 +54,9 @@ LEVEL_NOTE = ("Trusted: Lean kernel (axioms propext, Classical.choice, Quot.soun
 LEAN_TARGETS = ["QclibModel.Props.C04", "QclibModel.Props.C04U2"]
 THEOREMS = ["Qclib.C04_ctrl_state", "Qclib.C04_ctrl_state_bits", "Qclib.C04_slices", "Qclib.C04_ldmcsu_core", "Qclib.C04_ldmcsu_circuit",
             "Qclib.C04_gate_a", "Qclib.C04_gate_a_diag", "Qclib.C04_h_conj", "Qclib.C04_abc", "Qclib.C04_abc_model", "Qclib.C04_multitarget",
+            "Qclib.C04_ldmcsu_full", "Qclib.C04_vchain_inverse", "Qclib.C04_ldmcsu_full_defined", "Qclib.C04_ldmcsu_spec",
+            "Qclib.C04_multitarget_full", "Qclib.C04_multitarget_full_defined", "Qclib.C04_multitarget_spec",
+            "Qclib.C04_ldmcsp_partial", "Qclib.C04_ldmcsp_full_defined", "Qclib.C04_ldmcsp_spec",
             # part B (props/c04_u2.py, Props/C04U2.lean)
             "Qclib.C04_pairs", "Qclib.C04_ladder_diag_partial", "Qclib.C04_ladder_weights", "Qclib.C04_ladder_run_partial",
             "Qclib.C04_qdmcu_step", "Qclib.C04_qdmcu",
